@@ -29,17 +29,21 @@
         instance: `instance.__annotations__` is found on the nearest annotated class, evaluated with builtins only;
           no annotations: TypeError; a `tuple[...]` alias: TypeError;
     * `getTypeHints`, `hintsFromSignature`, `signatureOf`, `typedDictSignature`, `tupleSignature`, `realSignature`
-      follow the code branch by branch; `Fail.recursion` is the RecursionError of the mutual recursion
+      follow the code branch by branch (as of /repo f5b21b1: `typed_dict_signature` reads the hints of the class itself,
+      87eadd9, and `__required_keys__`, 629e6a2).  `Fail.recursion` is the RecursionError of the mutual recursion
       `get_type_hints -> _hints_from_signature -> signature -> typed_dict_signature -> cached_type_hints -> get_type_hints`
-      which the real code enters for a TypedDict without any resolvable hint;
+      which the code before 87eadd9 entered for a TypedDict without any resolvable hint; the present functions never
+      produce it (Props/Hints.lean `signature_never_recurses`, `get_type_hints_total`), the mutant `…Pre87eadd9` does;
+    * `bindAnnotations` / `bindTargets`: the annotation `binding._get_binding` asks an unmarshaller for, per parameter
+      (a string becomes `refs.forwardref(text, module=obj.__module__)`, f5b21b1), and what that reference evaluates to;
     * `runSeq` / `cachedStep`: a sequence of calls through a memo keyed by object identity (`compat.cache`).
 
   Outside the model: what an annotation object IS (hints are opaque identities `ty id`), `Annotated` / `Required` /
   `NotRequired` stripping, generics with forward references inside, metaclass `__call__`, a pre-existing
   `__signature__`, frame walking when an object has no `__module__`, `__wrapped__` chains.
 
-  The section `Mutants` holds the seeded regressions C05h, C18g, C12h, C15h, C10g of /verif/seeded as WRONG
-  implementations; Props/Hints.lean uses them to show its statements are not vacuous, the driver answers them beside
+  The section `Mutants` holds the seeded regressions C05h, C18g, C12h, C15h, C10g of /verif/seeded and the code before
+  the repairs 87eadd9, 629e6a2, f5b21b1 (`…Pre87eadd9`, `…Pre629e6a2`, `…PreF5b21b1`) as WRONG implementations; Props/Hints.lean uses them to show its statements are not vacuous, the driver answers them beside
   the real functions (harness demonstrations only).
 -/
 import TypelibModel.Model.Naming
@@ -121,8 +125,9 @@ structure ClassEntry where
 inductive Kind
   | plain
   | dataclass
-  /-- `istypeddict`: `__total__`, `__required_keys__` (not read by these functions), the keys `x` with `hasattr(cls, x)` -/
-  | typedDict (total : Bool) (required : List Str) (attrs : List Str)
+  /-- `istypeddict` (a dict subclass with `__total__`): `__total__`, `__required_keys__` (`none`: the class has no such
+      attribute — not a real `typing.TypedDict`), the keys `x` with `hasattr(cls, x)` (read by the code before 629e6a2 only) -/
+  | typedDict (total : Bool) (required : Option (List Str)) (attrs : List Str)
   /-- `isnamedtuple`: a tuple subclass with `_fields` (typing.NamedTuple, or a hint-less `collections.namedtuple`) -/
   | namedTuple
   /-- `istupletype and not isnamedtuple`: `tuple` itself, a plain tuple subclass -/
@@ -316,13 +321,19 @@ def tupleSignature (args : List Hint) (variadic : Bool) : List Param :=
     [{ name := argsName, kind := .varPos, ann := .obj (firstOrAny args), dflt := .none }]
   else tupleParams 0 args
 
-/-- one parameter of `typed_dict_signature` (inspection.py:406-411): `default=getattr(obj, x, empty if total else ...)` -/
-def tdParam (total : Bool) (attrs : List Str) (p : Str × Hint) : Param :=
-  { name := p.1, kind := .kwOnly, ann := .obj p.2,
-    dflt := if attrs.contains p.1 then .value else if total then .none else .ellipsis }
+/-- `required` of `typed_dict_signature`: `__required_keys__`; without that attribute every key / no key by `__total__` -/
+def requiredOf (total : Bool) (required : Option (List Str)) (hints : Dict Hint) : List Str :=
+  match required with
+  | some r => r
+  | none => if total then keys hints else []
 
-def typedDictSignature (total : Bool) (attrs : List Str) (hints : Dict Hint) : List Param :=
-  hints.map (tdParam total attrs)
+/-- one parameter of `typed_dict_signature`: `default=Parameter.empty if x in required else ...` -/
+def tdParam (req : List Str) (p : Str × Hint) : Param :=
+  { name := p.1, kind := .kwOnly, ann := .obj p.2, dflt := if req.contains p.1 then .none else .ellipsis }
+
+/-- `typed_dict_signature(obj)` given `hints = get_type_hints(obj, exhaustive=False)` -/
+def typedDictSignature (total : Bool) (required : Option (List Str)) (hints : Dict Hint) : List Param :=
+  hints.map (tdParam (requiredOf total required hints))
 
 def notKwOnly (p : Str × Hint) : Bool := p.2 != .kwOnly
 
@@ -332,14 +343,12 @@ def baseHints (env : Env) (o : Obj) : Dict Hint :=
   | .ok h => h.filter notKwOnly
   | .error _ => []
 
-/-- `inspection.signature(obj)` (298-308).  For a TypedDict `typed_dict_signature` asks `cached_type_hints(obj)`, i.e.
-    `get_type_hints(obj, exhaustive=True)`, which comes back here when there is no hint: RecursionError. -/
+/-- `inspection.signature(obj)`.  For a TypedDict `typed_dict_signature` asks `get_type_hints(obj, exhaustive=False)`: the
+    hints of the class itself, which never come back to the signature. -/
 def signatureOf (env : Env) : Obj → Except Fail (List Param)
   | .cls c =>
     match c.kind with
-    | .typedDict total _ attrs =>
-      if (baseHints env (.cls c)).isEmpty then .error .recursion
-      else .ok (typedDictSignature total attrs (baseHints env (.cls c)))
+    | .typedDict total required _ => .ok (typedDictSignature total required (baseHints env (.cls c)))
     | .tupleSub => .ok (tupleSignature [] false)
     | _ => realSignature c
   | .func f => .ok f.params
@@ -357,7 +366,7 @@ def annHint (module : Str) : PAnn → Hint
 /-- one entry of `_hints_from_signature` (inspection.py:346-358) -/
 def paramHint (module : Str) (p : Param) : Str × Hint := (p.name, annHint module p.ann)
 
-/-- `_hints_from_signature(obj)` (340-359): TypeError / ValueError of `signature` give `{}` -/
+/-- `_hints_from_signature(obj)`: TypeError / ValueError of `signature` give `{}` (anything else would propagate) -/
 def hintsFromSignature (env : Env) (o : Obj) : Except Fail (Dict Hint) :=
   match signatureOf env o with
   | .ok ps => .ok (ps.map (paramHint (objModule o)))
@@ -373,12 +382,63 @@ def cachedTypeHintsValue (env : Env) (o : Obj) : Except Fail (Dict Hint) := getT
 
 def paramAnn (p : Param) : Str × PAnn := (p.name, p.ann)
 
-/-- the annotation `binding._get_binding` unmarshals each parameter with (binding.py:118-131): `param.annotation`
-    of `cached_signature(obj)` -/
+/-- `param.annotation` of `cached_signature(obj)` per parameter: where `binding._get_binding` starts from -/
 def paramAnnotations (env : Env) (o : Obj) : Except Fail (Dict PAnn) :=
   match signatureOf env o with
   | .ok ps => .ok (ps.map paramAnn)
   | .error e => .error e
+
+/-- binding.py `_get_binding`: a string annotation becomes `refs.forwardref(annotation, is_argument=True, module=obj.__module__)` -/
+def bindAnn (module : Str) : PAnn → PAnn
+  | .text s => .obj (.fwd (Naming.forwardrefOfText s module).text (Naming.forwardrefOfText s module).module)
+  | a => a
+
+def bindParamAnn (module : Str) (p : Param) : Str × PAnn := (p.name, bindAnn module p.ann)
+
+/-- the annotation each parameter's unmarshaller is asked for -/
+def bindAnnotations (env : Env) (o : Obj) : Except Fail (Dict PAnn) :=
+  match signatureOf env o with
+  | .ok ps => .ok (ps.map (bindParamAnn (objModule o)))
+  | .error e => .error e
+
+/-- why building a binding fails: the signature, or a reference that cannot be evaluated -/
+inductive BErr
+  | sig (f : Fail)
+  | eval (e : TErr)
+  deriving DecidableEq, Repr, Inhabited
+
+/-- `refs.evaluate(ref)`: the text in the globals of the module the reference carries (then builtins) -/
+def evalRef (env : Env) : Hint → Except TErr Hint
+  | .fwd t m => resolve (funcScope env m) t
+  | h => .ok h
+
+/-- the type the unmarshaller of one parameter is built for (`none`: no annotation, `NoOpUnmarshaller`).  A bare string
+    that reaches `unmarshaller(..)` is resolved in the module of whoever CALLS the library (frame walking): `caller`. -/
+def bindTarget (env : Env) (caller : Str) : PAnn → Except TErr (Option Hint)
+  | .missing => .ok none
+  | .text s => match resolve (funcScope env caller) s with
+    | .ok h => .ok (some h)
+    | .error e => .error e
+  | .obj h => match evalRef env h with
+    | .ok v => .ok (some v)
+    | .error e => .error e
+
+/-- every parameter in order, the first failure aborts the binding -/
+def bindItems (f : PAnn → Except TErr (Option Hint)) : Dict PAnn → Except BErr (Dict (Option Hint))
+  | [] => .ok []
+  | p :: ps =>
+    match f p.2 with
+    | .error e => .error (.eval e)
+    | .ok t =>
+      match bindItems f ps with
+      | .error e => .error e
+      | .ok rest => .ok ((p.1, t) :: rest)
+
+/-- `binding._get_binding(obj)` called from module `caller`: the type each parameter is converted to -/
+def bindTargets (env : Env) (caller : Str) (o : Obj) : Except BErr (Dict (Option Hint)) :=
+  match bindAnnotations env o with
+  | .error e => .error (.sig e)
+  | .ok d => bindItems (bindTarget env caller) d
 
 /-! ### sequences of calls -/
 
@@ -543,6 +603,46 @@ def paramAnnotationsC10g (env : Env) (o : Obj) : Except Fail (Dict PAnn) :=
     match getTypeHints env o true with
     | .error e => .error e
     | .ok hints => .ok (ps.map (c10gAnn hints))
+
+/-- before 87eadd9: `typed_dict_signature` asked `cached_type_hints(obj)` (exhaustive), which comes back to the signature
+    when the class has no resolvable hint: RecursionError. -/
+def signatureOfPre87eadd9 (env : Env) : Obj → Except Fail (List Param)
+  | .cls c =>
+    match c.kind with
+    | .typedDict total required _ =>
+      if (baseHints env (.cls c)).isEmpty then .error .recursion
+      else .ok (typedDictSignature total required (baseHints env (.cls c)))
+    | _ => signatureOf env (.cls c)
+  | o => signatureOf env o
+
+def hintsFromSignaturePre87eadd9 (env : Env) (o : Obj) : Except Fail (Dict Hint) :=
+  match signatureOfPre87eadd9 env o with
+  | .ok ps => .ok (ps.map (paramHint (objModule o)))
+  | .error .recursion => .error .recursion
+  | .error _ => .ok []
+
+def getTypeHintsPre87eadd9 (env : Env) (o : Obj) (exhaustive : Bool) : Except Fail (Dict Hint) :=
+  if (baseHints env o).isEmpty && exhaustive then hintsFromSignaturePre87eadd9 env o else .ok (baseHints env o)
+
+/-- before 629e6a2: `default=getattr(obj, x, empty if total else ...)` — `__total__` only, and an attribute of the class
+    named like the key (a method of `dict`) as the default. -/
+def tdParamPre629e6a2 (total : Bool) (attrs : List Str) (p : Str × Hint) : Param :=
+  { name := p.1, kind := .kwOnly, ann := .obj p.2,
+    dflt := if attrs.contains p.1 then .value else if total then .none else .ellipsis }
+
+def signatureOfPre629e6a2 (env : Env) : Obj → Except Fail (List Param)
+  | .cls c =>
+    match c.kind with
+    | .typedDict total _ attrs => .ok ((baseHints env (.cls c)).map (tdParamPre629e6a2 total attrs))
+    | _ => signatureOf env (.cls c)
+  | o => signatureOf env o
+
+/-- before f5b21b1: `_get_binding` handed `param.annotation` to `unmarshaller(..)` as it was — a string is then resolved in
+    the module of the caller. -/
+def bindTargetsPreF5b21b1 (env : Env) (caller : Str) (o : Obj) : Except BErr (Dict (Option Hint)) :=
+  match paramAnnotations env o with
+  | .error e => .error (.sig e)
+  | .ok d => bindItems (bindTarget env caller) d
 
 end Mutants
 
